@@ -204,6 +204,11 @@ def gen_sig(rng, idx: int, force=None):
     for a in sig["attrs"]:
         inst["attrs"][a["name"]] = not a["optional"] or rng.random() < 0.6
     sig["inst"] = inst
+    slots = [s for s in raw_slots(sig) if s]
+    if len(slots) >= 2 and rng.random() < 0.35:
+        from harness.props.c11 import repeat_patterns
+
+        inst["same"] = rng.choice(repeat_patterns(slots, rng))
     return sig
 
 
@@ -284,7 +289,18 @@ def instantiate(env: Env, sig, cls, rng, given_inputs=None):
     names, kw = {}, {}
     keep = []
 
+    rep = rep_of(sig)
+    made = {}
+
     def mk(name):
+        name = rep.get(name, name)
+        if name in made:  # the very same Var object in another slot
+            return made[name]
+        v = _mk(name)
+        made[name] = v
+        return v
+
+    def _mk(name):
         if given_inputs is not None and name in given_inputs:
             v = given_inputs[name]
         else:
@@ -374,7 +390,21 @@ def emit_real(env: Env, node, names):
     return node.to_onnx(scope, build_subgraph=lambda n, key, g: onnx.helper.make_graph([], key, [], []))
 
 
+def rep_of(sig):
+    """slot name -> name of the slot whose Var it shares (`inst["same"]`: groups of slots given one Var)"""
+    m = {}
+    for group in sig["inst"].get("same") or []:
+        for s in group:
+            m[s] = group[0]
+    return m
+
+
 def expected_slots(sig):
+    rep = rep_of(sig)
+    return [rep.get(x, x) for x in raw_slots(sig)]
+
+
+def raw_slots(sig):
     inst = sig["inst"]
     ins = []
     for n, k in sig["inputs"]:
@@ -389,14 +419,16 @@ def expected_slots(sig):
 
 def node_request(sig, avals_repr):
     inst = sig["inst"]
+    rep = rep_of(sig)
+    r = lambda x: rep.get(x, x)  # noqa: E731
     ins = []
     for n, k in sig["inputs"]:
         if k == "single":
-            ins.append({"k": "s", "v": f"in_{n}"})
+            ins.append({"k": "s", "v": r(f"in_{n}")})
         elif k == "optional":
-            ins.append({"k": "o", "v": f"in_{n}" if inst["present"][n] else None})
+            ins.append({"k": "o", "v": r(f"in_{n}") if inst["present"][n] else None})
         else:
-            ins.append({"k": "v", "v": [f"in_{n}_{i}" for i in range(inst["nvar"])]})
+            ins.append({"k": "v", "v": [r(f"in_{n}_{i}") for i in range(inst["nvar"])]})
     outs, i = [], 0
     for n, k in sig["outputs"]:
         if k == "variadic":
@@ -494,6 +526,7 @@ def _run_case(ck, env: Env, sig, rng, reqs, metas, stats):
     if node.opset_req != {(sig["domain"], sig["version"])}:
         ck.failure("import:opset_req", f"opset_req {node.opset_req}", case)
     stats["absent_optionals"] += sum(1 for x in p.input if x == "")
+    stats["repeated_var"] = stats.get("repeated_var", 0) + int(bool(sig["inst"].get("same")))
     stats["trailing_absent_kept"] += int(len(p.input) > 0 and p.input[-1] == "")
     stats["attrs"] += len(got_attrs)
     ck.count(("node", repr(sig["inputs"]), repr(sig["outputs"]), repr(sig["attrs"]), sig["thook"], sig["vhook"], repr(sig["inst"])))
@@ -856,7 +889,11 @@ def run(ck: core.Check):
     ck.lean(["SpoxModel.Props.C18"], audit="SpoxModel.Audit.C18")
     if ck.thorough:
         ck.leanchecker(["SpoxModel.Props.C18"])
-    env = Env(ck)
+    try:
+        env = Env(ck)
+    except Exception as e:  # noqa: BLE001
+        ck.broken("correspondence", "spox (public API / extension interface) not importable", f"{type(e).__name__}: {e}")
+        return
     rng = ck.rng
     stats = {"warnings": 0, "absent_optionals": 0, "trailing_absent_kept": 0, "attrs": 0,
              "exec_runs": 0, "exec_runtime_unsupported": 0, "thook": {}, "vhook": {}}
@@ -880,7 +917,13 @@ def run(ck: core.Check):
                                                + ([("i3", "variadic")] if tail is not None else [])})
             sig["inst"]["present"] = {f"i{j}": bool(bits >> j & 1) for j in range(3)}
             sig["inst"]["nvar"] = tail or 0
+            sig["inst"].pop("same", None)
             run_case(ck, env, sig, rng, reqs, metas, stats)
+            from harness.props.c11 import repeat_patterns
+
+            for pat in repeat_patterns([s for s in raw_slots(sig) if s], rng, 0):
+                sig2 = dict(sig, inst=dict(sig["inst"], same=pat))
+                run_case(ck, env, sig2, rng, reqs, metas, stats)
     # second inference
     re_meta = []
     for i in range(ck.pick(20, 100)):
